@@ -9,6 +9,11 @@ calls and evaluates the run-time contract after every call.
                  BTrees.check.check() accept the container (C03)
   --mode twin  : C and Python driven in lockstep agree on results, contents,
                  shape (__getstate__ structure) and pickles (C09)
+
+Besides the generated histories every configuration runs two scripted
+scenario classes (see "Special scenario classes" below): [E] writes with
+arguments outside the family's domain offered to an EMPTY container, [S]
+in-place set operators whose operand is the container itself.
 """
 import argparse
 import pickle
@@ -166,6 +171,363 @@ def run_config(s, fam, kind, impl, sizes, mode, budget):
     return time.time() - t0
 
 
+# --------------------------------------------------------------------------
+# Special scenario classes (run in a forked child, H.guarded_cases: a crash or
+# a hang of the code under test is the outcome of the case, reported like any
+# other failure).
+#
+#  [E] rejected writes on an EMPTY container.  C01: "a single-key call that
+#      raises leaves the contents unchanged"; C03: "no leaf or interior node of
+#      a non-empty tree is empty ... _check() succeeds" (so a tree without
+#      entries has no node at all: state None, no first leaf); C09: "writes
+#      with unusable keys or values raise TypeError and change nothing, in
+#      both".  The container is empty because it is fresh, was emptied by
+#      clear(), by deleting every key (ascending / descending) or by popping
+#      everything; the call offers a key outside the family's key domain with a
+#      good value, a good key with a value outside the value domain, or both,
+#      through every writing entry point.  After the call the container is
+#      observed SAFEST FIRST (bool, len, _check, __getstate__, then iteration),
+#      each compared with the reference (an empty sorted map); the first
+#      difference is reported and nothing else is called on that container.
+#      Only when all agree the history continues (popitem/pop on the empty
+#      container, then a good insert, lookups, pop, again empty).
+#  [S] in-place set operators with the container itself as operand.  C01
+#      names "the in-place set operators" among the calls whose results and
+#      contents equal the reference's; the reference is Python's builtin set:
+#      s ^= s and s -= s empty it, s &= s and s |= s keep it.
+# --------------------------------------------------------------------------
+GRAVE = []      # containers that failed an observation stay referenced: deallocation is not a safe observation
+
+
+class Plain:
+    """an object with default comparison: outside the key domain of object-keyed families"""
+    def __repr__(self):
+        return "Plain()"
+
+
+def bad_arguments(fam):
+    """-> (keys outside the key domain, values outside the value domain)"""
+    def of(c, is_key):
+        if fam == "fs":
+            n = 2 if is_key else 6
+            return ["x" * n, b"y" * (n + 1), b"", 7, None]
+        if c == "O":
+            return [Plain()] if is_key else []
+        if c == "F":
+            return ["x", None, (1.5,)]
+        out = ["x", 2 ** 70, -2 ** 70, 1.5, None, (1,), b"1"]
+        if c in "UQ":
+            out.append(-1)
+        if c in "IU":
+            out.append(2 ** 32)
+        return out
+    return of(fam[0], True), of(fam[1], False)
+
+
+EMPTY_WAYS = (("fresh", 0), ("clear", 1), ("clear", 5), ("del-asc", 1), ("del-asc", 5), ("del-desc", 5), ("pop-all", 3))
+
+
+def special_cases(fam, is_set, is_tree):
+    keys = H.keys_of(fam, 8)
+    vals = H.values_of(fam)
+    bk, bv = bad_arguments(fam)
+    cases = []
+    if is_set:
+        args = [(b, None, "bad-key") for b in bk]
+        entry = ["add", "sinsert", "supdate", "ior", "ixor", "ctor"]
+    else:
+        args = ([(b, vals[0], "bad-key") for b in bk] + [(keys[1], b, "bad-value") for b in bv] +
+                [(bk[i % len(bk)], bv[i % len(bv)], "bad-both") for i in range(min(2, len(bk), len(bv)))])
+        entry = ["setitem", "setdefault", "update", "update_dict", "ctor", "ctor_dict"] + (["insert"] if is_tree else [])
+    # argument outermost, entry point innermost: the first few failures of a configuration name different calls
+    for i, (k, v, what) in enumerate(args):
+        for way, n in EMPTY_WAYS:
+            for op in entry:
+                if op.startswith("ctor") and way != "fresh":
+                    continue            # the constructor makes its own (fresh) container
+                cases.append(("E", way, n, op, k, v, what, (i + len(op)) % 2))
+    if is_set:
+        for n in (0, 1, 2, 3, 5, 8):
+            for prep in ("fill", "thinned"):
+                if prep == "thinned" and n < 2:
+                    continue
+                for op in ("ixor", "isub", "iand", "ior"):
+                    cases.append(("S", prep, n, op))
+    return cases
+
+
+class Scenario:
+    def __init__(self, cfg, note):
+        self.__dict__.update(cfg)
+        self.note = note
+        self.cls = H.get_class(self.fam, self.kind, self.impl, self.leaf, self.internal)
+        self.twin = (H.get_class(self.fam, self.kind, "py" if self.impl == "c" else "c", self.leaf, self.internal)
+                     if self.mode == "twin" else None)
+        self.t = self.cls()
+        self.u = self.twin() if self.twin else None
+        self.ref = H.RefMap(self.is_set)
+        self.hist = []
+        self.evals = 0
+
+    def fail(self, what, text):
+        GRAVE.append((self.t, self.u))
+        return {"what": what, "text": text, "hist": list(self.hist)}
+
+    def apply(self, t, op):
+        name = op[0]
+        try:
+            if name == "update_dict":
+                t.update({op[1]: op[2]})
+            elif name == "sinsert":
+                t.insert(op[1])
+            elif name == "self":
+                import operator
+                r = getattr(operator, op[1])(t, t)
+                return ("ret", "self" if r is t else "other: %r" % (r,))
+            else:
+                return H.apply_impl(t, op)
+            return ("ret", H.MARK)
+        except Exception as e:
+            return ("exc", type(e).__name__)
+
+    # ---- observations, safest first; `want` = the reference contents
+    def observe(self, t, want, who=""):
+        is_set, is_tree = self.is_set, self.is_tree
+        # what each property states about the container (safest observation first in every mode):
+        #   model (C01): bool, len, iteration, items equal the reference's
+        #   wf    (C03): _check() succeeds, a tree without entries has no node (state None), the independent
+        #                walk yields the reference contents, BTrees.check.check() succeeds
+        #   twin  (C09): "change nothing" / equal contents and serialized state: all of the cheap ones, on both
+        steps = []
+        if self.mode != "wf":
+            steps += [("bool", lambda: bool(t), bool(want)), ("len", lambda: len(t), len(want))]
+        if self.mode != "model":
+            if is_tree:
+                steps.append(("_check", lambda: t._check(), None))
+            if not want:
+                steps.append(("getstate", lambda: t.__getstate__(), None if is_tree else ((),)))
+        if self.mode != "wf" or not is_tree:
+            steps.append(("iter", lambda: list(t), [x if is_set else x[0] for x in want]))
+            if not is_set:
+                steps.append(("items", lambda: list(t.items()), list(want)))
+        if self.mode == "wf" and is_tree:
+            steps.append(("walk", lambda: H.walk(t, is_set, self.leaf, self.internal)[0], list(want)))
+            from BTrees.check import check as pkg_check
+            steps.append(("check.check", lambda: pkg_check(t), None))
+        for name, f, exp in steps:
+            self.evals += 1
+            self.note("%s%s after %s" % (who, name, self.hist[-1] if self.hist else "creation"))
+            try:
+                got = ("ret", f())
+            except Exception as e:
+                got = ("exc", "%s: %s" % (type(e).__name__, e))
+            if got != ("ret", exp):
+                return self.fail(who + name, "%s%s gave %r, the reference %r" % (who, name, got, exp))
+        return None
+
+    def step(self, op, want_exc=None):
+        """one call on the container (and twin), judged against the reference; -> failure | None"""
+        self.hist.append(list(map(repr, op)))
+        self.note("call %r" % (op,))
+        self.evals += 1
+        if want_exc:
+            r_ref = ("exc", want_exc)
+        elif op[0] in ("update_dict", "sinsert"):
+            r_ref = H.apply_ref(self.ref, ("update", ((op[1], op[2]),)) if op[0] == "update_dict" else ("add", op[1]))
+        else:
+            r_ref = H.apply_ref(self.ref, op)
+        r = self.apply(self.t, op)
+        if self.mode == "twin":
+            r2 = self.apply(self.u, op)
+            if not H.same_result(r, r2):
+                return self.fail("twin-result", "call %r: %s %r, twin %r" % (op, self.impl, r, r2))
+            if want_exc and r != ("exc", want_exc):
+                return self.fail("result", "call %r gave %r in both; the statement asks for %s" % (op, r, want_exc))
+        elif want_exc:
+            if r[0] != "exc":
+                return self.fail("accepted", "call %r returned; the argument is outside the family's domain" % (op,))
+        elif not H.same_result(r, r_ref):
+            return self.fail("result", "call %r returned %r, reference %r" % (op, r, r_ref))
+        want = self.ref.contents()
+        bad = self.observe(self.t, want)
+        if bad is None and self.mode == "twin":
+            bad = self.observe(self.u, want, "twin-")
+            if bad is None:
+                self.evals += 1
+                a, b = typed(state_sig(self.t)), typed(state_sig(self.u))
+                if a != b:
+                    bad = self.fail("twin-state", "after %r states differ: %r vs %r" % (op, a, b))
+        return bad
+
+
+def run_special(case, note, cfg):
+    """-> {'evals', 'fail': None | {...}, 'key': the case-specific part of the failure key}"""
+    sc = Scenario(cfg, note)
+    fam, is_set, is_tree = sc.fam, sc.is_set, sc.is_tree
+    keys, vals = H.keys_of(fam, 8), H.values_of(fam)
+    ins = (lambda k: ("add", k)) if is_set else (lambda k: ("setitem", k, vals[0]))
+    dele = (lambda k: ("remove", k)) if is_set else (lambda k: ("delitem", k))
+
+    def run(ops):
+        for op in ops:
+            bad = sc.step(op)
+            if bad:
+                return bad
+        return None
+
+    def done(bad, tail, pre=False):
+        if bad and pre:
+            # the preparation (plain fills / deletions) is the business of the ordinary histories
+            tail = "prepare:" + tail
+        return {"evals": sc.evals, "fail": bad, "tail": tail}
+
+    if case[0] == "E":
+        _, way, n, op, k, v, what, cont = case
+        tail = "%s:%s:%s" % (op, what, way)
+        fill = keys[:n]
+        prep = [ins(x) for x in fill]
+        if way == "clear":
+            prep.append(("clear",))
+        elif way == "del-asc":
+            prep += [dele(x) for x in fill]
+        elif way == "del-desc":
+            prep += [dele(x) for x in fill[::-1]]
+        elif way == "pop-all":
+            prep += [("spop",) if is_set else ("popitem",)] * n
+        bad = run(prep)
+        if bad:
+            return done(bad, tail, True)
+        if op in ("ctor", "ctor_dict"):
+            arg = [k] if is_set else {k: v} if op == "ctor_dict" else [(k, v)]
+            sc.hist.append([op, repr(arg)])
+            outs = []
+            for c in [sc.cls] + ([sc.twin] if sc.twin else []):
+                sc.evals += 1
+                note("constructor %s(%r)" % (c.__name__, arg))
+                try:
+                    x = c(arg)
+                    GRAVE.append(x)
+                    outs.append("ret")
+                except Exception as e:
+                    outs.append(type(e).__name__)
+            if "ret" in outs:
+                return done(sc.fail("accepted", "%s(%r) returned; the argument is outside the family's domain (%s)" %
+                                    (sc.cls.__name__, arg, outs)), tail)
+            if sc.mode == "twin" and set(outs) != {"TypeError"}:
+                return done(sc.fail("result", "%s(%r) raised %s; the statement asks for TypeError" %
+                                    (sc.cls.__name__, arg, outs)), tail)
+            return done(None, tail)
+        if op in ("update", "supdate", "ior", "ixor"):
+            call = (op, (k,) if is_set else ((k, v),))
+        elif is_set:
+            call = (op, k)
+        else:
+            call = (op, k, v)
+        bad = sc.step(call, want_exc="TypeError")
+        if bad:
+            return done(bad, tail)
+        # ---- only now the history continues
+        k1, k2 = keys[2], keys[0]
+        pop = ("spop",) if is_set else ("popitem",)
+        if cont == 0:
+            ops = [pop, ins(k1), ("contains", k1), ins(k2), pop, pop, ("len",)]
+        else:
+            ops = [ins(k1), pop, pop, ("bool",)]
+        bad = run(ops)
+        if bad:
+            bad["what"] = "later-" + bad["what"]
+            return done(bad, tail + ":" + sc.hist[-1][0].strip("'"))
+        bad = sc.step(call, want_exc="TypeError")
+        return done(bad, tail)
+
+    _, prep, n, op = case
+    tail = op
+    fill = keys[:n]
+    ops = [ins(x) for x in fill]
+    if prep == "thinned":
+        ops.append(dele(fill[n // 2]))
+    bad = run(ops)
+    if bad:
+        return done(bad, tail, True)
+    # the reference is Python's builtin set, driven by the same statement
+    import operator
+    r = set(sc.ref.d)
+    r = getattr(operator, op)(r, r)
+    sc.ref.d = {x: None for x in r}
+    sc.hist.append(["s %s= s" % {"ixor": "^", "isub": "-", "iand": "&", "ior": "|"}[op]])
+    note("self operand %s on %d keys" % (op, len(fill)))
+    sc.evals += 1
+    res = sc.apply(sc.t, ("self", op))
+    if res != ("ret", "self"):
+        return done(sc.fail("result", "s %s s with s of %d keys gave %r; the builtin set returns s itself" % (op, n, res)), tail)
+    if sc.mode == "twin":
+        res2 = sc.apply(sc.u, ("self", op))
+        if res2 != res:
+            return done(sc.fail("twin-result", "s %s s: %s %r, twin %r" % (op, sc.impl, res, res2)), tail)
+    want = sc.ref.contents()
+    bad = sc.observe(sc.t, want)
+    if bad is None and sc.mode == "twin":
+        bad = sc.observe(sc.u, want, "twin-")
+        if bad is None and typed(state_sig(sc.t)) != typed(state_sig(sc.u)):
+            bad = sc.fail("twin-state", "after s %s s states differ: %r vs %r" % (op, state_sig(sc.t), state_sig(sc.u)))
+    if bad:
+        return done(bad, tail)
+    bad = run([ins(keys[7]), ("contains", keys[0]), ins(keys[0]), dele(keys[7]), ("len",)])
+    if bad:
+        bad["what"] = "later-" + bad["what"]
+    return done(bad, tail)
+
+
+def run_special_config(s, fam, kind, impl, sizes, mode):
+    is_set = kind in ("Set", "TreeSet")
+    is_tree = kind in ("BTree", "TreeSet")
+    leaf, internal = sizes if is_tree else (None, None)
+    cfg = dict(fam=fam, kind=kind, impl=impl, leaf=leaf, internal=internal, mode=mode, is_set=is_set, is_tree=is_tree)
+    cases = special_cases(fam, is_set, is_tree)
+    tag = "%s%s%s" % (fam, kind, "Py" if impl == "py" else "")
+    state = {"fails": 0}
+
+    def fn(case, note):
+        r = run_special(case, note, cfg)
+        if r["fail"]:
+            state["fails"] += 1
+            r["stop"] = state["fails"] >= 6
+        return r
+
+    def stop(results):
+        return sum(1 for r in results if r[0] == "crash" or r[0] == "ok" and r[1]["fail"]) >= 6
+
+    results = H.guarded_cases(fn, cases, timeout=20, stop=stop)
+    ran = 0
+    for case, r in zip(cases, results):
+        scen = "empty-reject" if case[0] == "E" else "self-operand"
+        if r[0] == "skipped":
+            continue
+        ran += 1
+        if r[0] == "crash":
+            s.evaluations += 1
+            what = "hang" if r[1] == 14 else "crash"
+            tail = "%s:%s:%s" % (case[3], case[6], case[1]) if case[0] == "E" else case[3]
+            f = {"what": what, "hist": [["case"] + list(map(repr, case))],
+                 "text": "the interpreter %s (signal %s) at: %s" % ("hung" if what == "hang" else "crashed", r[1], r[2])}
+        else:
+            s.evaluations += r[1]["evals"]
+            f, tail = r[1]["fail"], r[1]["tail"]
+        if f:
+            key = "%s:%s:%s:%s:%s:%s" % (mode, "py" if impl == "py" else "c", kind, scen, f["what"], tail)
+            if scen == "self-operand" and f["what"] == "twin-state":
+                # C09's "equal shape and equal serialized state" after an in-place operator is the very contract
+                # of the ordinary histories, whatever the operand is: the same violation keeps the same key
+                key = "%s:%s:%s:%s:%s" % (mode, "py" if impl == "py" else "c", kind, f["what"], tail)
+            s.failures.append(Failure(
+                key=key,
+                desc="%s sizes=%s: %s" % (tag, sizes, f["text"]),
+                repro={"family": fam, "kind": kind, "impl": impl, "sizes": list(sizes), "case": list(map(repr, case)),
+                       "history": f["hist"]}))
+    s.distinct_nontrivial += ran
+    return ran
+
+
 def main():
     ap = argparse.ArgumentParser()
     ap.add_argument("--out")
@@ -175,8 +537,21 @@ def main():
     s = Standin(name="hist_rt[%s]" % a.mode,
                 bound="every history of <=%d core mutators (set/del or add/remove over 6 keys) + %s seeded histories of "
                       "13..26 calls over the whole public alphabet, per (family, kind, implementation, node sizes); "
-                      "node sizes (2,2),(3,2) set on the class" % (3 if qs else 4, "40" if qs else "400"),
-                rule="case = one call of one history; distinct non-trivial = distinct final shapes (leaf count, height, size) reached",
+                      "node sizes (2,2),(3,2) set on the class" % (3 if qs else 4, "40" if qs else "400") +
+                      "; PLUS per configuration, in a forked child (a crash / 20 s hang is the outcome of the case): "
+                      "[E] every writing entry point (t[k]=v, setdefault, insert, update(pairs), update(dict), the constructor "
+                      "from pairs / dict; sets: add, insert, update, |=, ^=, the constructor) x every argument of a fixed list "
+                      "outside the family's domain (bad key + good value, good key + bad value, both; str, int beyond the "
+                      "range, negative for unsigned, float, None, tuple, bytes; wrong-length / non-bytes for fs; an object "
+                      "with default comparison for object keys) x container empty because fresh / clear() after 1 and 5 keys / "
+                      "every key deleted ascending (1, 5 keys) and descending (5) / popped empty (3), observed safest first "
+                      "(bool, len, _check, __getstate__, iteration) before the history continues (popitem/pop, insert, "
+                      "lookup, pop to empty, the rejected call again); [S] Set and TreeSet: s ^= s, s -= s, s &= s, s |= s "
+                      "with 0, 1, 2, 3, 5, 8 keys (plain fill, and fill then one deletion) against Python's builtin set, "
+                      "then further adds / removes",
+                rule="case = one call of one history (or one observation after it); distinct non-trivial = distinct final "
+                     "shapes (leaf count, height, size) reached + the [E]/[S] cases run (distinct (emptying way, entry point, "
+                     "argument) / (operator, size, preparation))",
                 functions=["_BTree_set", "BTree_grow", "BTree_split", "BTree_split_root", "BTree_deleteNextBucket",
                            "bucket_pop", "BTree_popitem", "set_i*/TreeSet_i*", "_Tree._set/_del/_grow/_split (run-time)"])
     sizes = [(2, 2), (3, 2)] if qs else [(2, 2), (2, 3), (3, 2), (4, 3)]
@@ -188,8 +563,14 @@ def main():
             for impl in impls:
                 for sz in (sizes if kind in ("BTree", "TreeSet") else [(None, None)]):
                     run_config(s, fam, kind, impl, sz, a.mode, 40 if qs else 400)
+                    run_special_config(s, fam, kind, impl, sz, a.mode)
     s.samples = [{"family": "OO", "kind": "BTree", "sizes": [2, 2],
-                  "history": "setitem(0,'a') setitem(1,'a') setitem(2,'a') delitem(1) ... (each call checked)"}]
+                  "history": "setitem(0,'a') setitem(1,'a') setitem(2,'a') delitem(1) ... (each call checked)"},
+                 {"family": "II", "kind": "BTree", "sizes": [2, 2], "scenario": "E",
+                  "history": "setitem(0,1) .. setitem(4,1) clear() setdefault(1,'x') -> must raise; bool len _check "
+                             "__getstate__ list items == empty; popitem() -> KeyError; setitem(2,1) ... (each call checked)"},
+                 {"family": "OO", "kind": "TreeSet", "sizes": [2, 2], "scenario": "S",
+                  "history": "add(0) .. add(4) remove(2); s ^= s -> s, empty; add(7) contains(0) add(0) remove(7) len"}]
     write_standin(a.out, s)
 
 
